@@ -762,7 +762,7 @@ int main(int argc, char** argv)
     r.axis("heap.M_PERTURB", jint(perturb));
 
     // tier-dependent alphabets (overridable for experiments)
-    const auto ns     = parse_list(args.get("ns", args.thorough() ? "1,2,3,4,6,8" : "1,2,3"));
+    const auto ns     = parse_list(args.get("ns", args.thorough() ? "1,2,3,4,6,8" : "1,2,3,6"));
     const auto bsizes = parse_list(args.get("bsizes", args.thorough() ? "2,5,20,100" : "2,5,20"));
     const auto mevals = parse_list(args.get("max_evals", ell ? "100,2000,20000" : (args.thorough() ? "100,2000,20000" : "100,2000")));
     // (epsilon, max_evals) pairs. Bundle stage: the 20000-evaluation budget is combined with epsilon = 1e-8 only (every
